@@ -121,3 +121,25 @@ Proof.
   split; [exact LoadSessionGen.gen_env_layout_frozen|]. split; [exact gen_select_unchanged|].
   apply FileSetSeq.listings_per_call.
 Qed.
+
+(** ** Where a build may create files
+
+    [file_creates]: every file-creating call of package caco3 (os.Create,
+    os.CreateTemp, os.MkdirTemp, os.WriteFile, os.OpenFile, os.Mkdir(All),
+    os.Rename, os.Symlink, os.Link, ioutil.TempFile/TempDir) with the text of its
+    first argument.  On the current source: [downloadToFile] creates the path it
+    is handed (the caller passes [env.prepareOut(d.out)]), [env.prepareOut]
+    makes the directory of a path under out/, [syncRepos] the source directory.
+    No call takes a temporary directory ("" as the directory of a CreateTemp /
+    MkdirTemp) or a path outside the workspace: outputs(build) are under
+    <root>/out (and the synchronised sources under <root>/src). *)
+Definition frozen_file_creates : list (string * string * string) :=
+  [ ("downloadToFile", "os.Create", "f");
+    ("env.prepareOut", "os.MkdirAll", "dir");
+    ("syncRepos", "os.MkdirAll", "srcDir") ].
+
+Definition caco3_createsb : bool :=
+  LoadSessionGen.lay3_eqb Gen.CacoBuild.file_creates frozen_file_creates.
+
+Lemma gen_caco3_creates : caco3_createsb = true.
+Proof. vm_compute. reflexivity. Qed.
